@@ -238,7 +238,13 @@ fn gen_use(g: &mut G, macros: &[Macro], depth: u32) -> String {
     if macros.is_empty() {
         return "1".to_string();
     }
-    let m = &macros[g.below(macros.len())];
+    let i = g.below(macros.len());
+    gen_use_of(g, macros, i, depth)
+}
+
+/// a use of macro number `i`
+fn gen_use_of(g: &mut G, macros: &[Macro], i: usize, depth: u32) -> String {
+    let m = &macros[i];
     match &m.params {
         None => m.name.clone(),
         Some(p) => {
@@ -316,7 +322,9 @@ pub fn gen_case(g: &mut G, ex: &Excl) -> Case {
             body.push(')');
             macros.push(Macro { name, params: Some(params), body });
         } else {
-            let body = match g.below(5) {
+            let body = match g.below(6) {
+                // a parenthesised identifier: an object-like macro whose body looks like a parameter list
+                5 => (*g.pick(&["(uc2)", "(uc2)", "(uc1)", "(us1)"])).to_string(),
                 // a value that itself contains `=` (what a -D option is split at)
                 4 => format!("({}=={})", g.below(4), g.below(4)),
                 0 => format!("{}", g.below(50)),
@@ -375,7 +383,10 @@ pub fn gen_case(g: &mut G, ex: &Excl) -> Case {
                 labels.push("function-like-use".to_string());
             }
         }
-        let glob = !u.contains("uc2");
+        // a use that expands to something naming a variable can only stand in a function body
+        let all: BTreeMap<String, Macro> = macros.iter().map(|m| (m.name.clone(), m.clone())).collect();
+        let xu = expand(&u, &all, 0);
+        let glob = !xu.contains("uc1") && !xu.contains("uc2") && !xu.contains("us1");
         match g.below(6) {
             0 | 1 if glob => lines.push(Line::Code { text: format!("const short v{} = {};", vk, u), body: false }),
             2 if glob => lines.push(Line::Code { text: format!("const char w{}[] = \"{} {}x\";", vk, u.replace('"', ""), u.replace('"', "")), body: false }),
@@ -388,6 +399,15 @@ pub fn gen_case(g: &mut G, ex: &Excl) -> Case {
     }
     for v in &near {
         lines.push(Line::Code { text: format!("  {} = {};", v, g.below(200)), body: true });
+    }
+    // with more than 100 macros: the macros that fill one table and open the next one are used
+    if many && macros.len() > 102 {
+        for _ in 0..1 + g.below(2) {
+            let i = 96 + g.below(6);
+            let u = gen_use_of(g, &macros, i, 1);
+            lines.push(Line::Code { text: format!("  uc1 = {}+{};", u, g.below(9)), body: true });
+        }
+        labels.push("use-of-a-macro-at-the-100-boundary".to_string());
     }
     // with more than 100 macros: several #undef, one in the first table of 100 and then some around
     // the boundary between the tables (the built-in macro and -D macros shift it by a few places)
